@@ -45,12 +45,13 @@ def runPcomp (j : Json) : Json :=
        | .error e => internalJson e)
     | "split_on_commas" => jLines (splitOnCommas s)
     | "parse_passage_params" =>
-      (match parsePassageParams s with
+      (match parsePassageParams (fun d => match (getArr j "expr_ok").map jsonToStr |>.contains (String.ofList d), (getArr j "expr_bad").map jsonToStr |>.contains (String.ofList d) with | true, _ => some true | _, true => some false | _, _ => none) s with
        | .ok (.ok ps) => Json.arr (ps.map fun p => Json.arr #[jStr p.name, match p.default with | some d => jStr d | none => .null]).toArray
        | .ok (.error d) => Json.mkObj [("diag", .str (match d with
            | .order _ => "Invalid Parameter Order" | .badName _ => "Invalid Parameter Name" | .keyword _ => "Invalid Parameter Name"
-           | .duplicate _ => "Duplicate Parameter" | .emptyDefault _ => "Missing Default Value")),
-           ("name", jStr (match d with | .order n => n | .badName n => n | .keyword n => n | .duplicate n => n | .emptyDefault n => n))]
+           | .duplicate _ => "Duplicate Parameter" | .emptyDefault _ => "Missing Default Value"
+           | .badDefault _ => "Invalid Default Value" | .oracleMiss _ => "oracle-miss")),
+           ("name", jStr (match d with | .order n => n | .badName n => n | .keyword n => n | .duplicate n => n | .emptyDefault n => n | .badDefault n => n | .oracleMiss n => n))]
        | .error e => internalJson e)
     | "validate_passage_name" =>
       (match validatePassageName alnumH digitH s with
